@@ -19,13 +19,12 @@ import (
 // Object.getOwnPropertySymbols, Reflect.ownKeys) first takes the key list ([[OwnPropertyKeys]]) and then looks each
 // key up again ([[GetOwnProperty]]) when it is reached — the model below is exactly that.
 
-// Known finding C18-symiter-live (see /verif/known-findings.d/C18.json and /verif/inbox): goja's Object.assign /
-// spread walk the symbol table with a live iterator instead of a key snapshot, so a symbol property *created* by a
-// getter during the copy is copied too (and a deleted+re-created one is copied at its new position).
-// Domain exclusion while the finding is listed: the copy result of an assign/spread op during which the model saw a
-// symbol property being created is not compared (the getter log and all later observations still are).
-// Set to false once the fix is merged into /repo.
-const excludeAssignCreate = true
+// Former known finding C18-symiter-live (fixed in /repo b5d3152, witnesses pinned as -1/-2): goja's Object.assign /
+// spread walked the symbol table with a live iterator instead of a key snapshot, so a symbol property *created* by a
+// getter during the copy was copied too (and a deleted+re-created one was copied at its new position).
+// While the finding was listed, the copy result of an assign/spread during which the model saw a symbol property being
+// created was excluded from comparison; the switch is kept (false = no exclusion) in case the finding has to be re-listed.
+const excludeAssignCreate = false
 
 const symHelpers = `
 var GLOG=[];
